@@ -18,17 +18,16 @@
 
 Tags of the listed findings (known_findings.d/types2.json); anything else is reported untagged (None):
   union-member-eq       union values of different member types with the same canonical string are not equal
-  dt-lexical            date-and-time: the pattern of the type is never checked (patch types2-6)
   dt-day-overflow       date-and-time: day 30 of February etc. normalised instead of refused (libyang's unit tests require it)
-  dt-sort-overflow      date-and-time: sort callback returns a time difference that does not fit int (patch types2-7)
   dt-sort-eq            date-and-time: sort callback says equal for values the compare callback distinguishes (unit tests require it)
   dt-year-10000         date-and-time: canonical string with a 5-digit year is not accepted again
-  idref-any-base        identityref with several bases accepts an identity derived from any of them (patch types2-8)
+  dt-zone-hour          date-and-time: negative time zone offsets -24:00 .. -99:00 accepted (patch types2-9)
   idref-empty-prefix    identityref value :name accepted
 Retired tags (fixed in /repo, the regression cases stay in the generators and a reappearance is a violation):
   binary-pad-bits c0ee3aa (non-zero unused base64 bits: canonical string now re-encoded), str-nonchar d2cc93f
   (noncharacters refused by ly_getutf8/ly_checkutf8), yang-plane4-char f25b870, dt-str2time-overread 9ddb75e,
-  json-int64-base0 5c9a53f.
+  json-int64-base0 5c9a53f, dt-lexical 507eb73 (date-and-time pattern checked), dt-sort-overflow 33f29b0,
+  idref-any-base f805b4f (identityref derived from all bases).
 
 Type names are those of the table TYPES in impl/t_types2.c (module types2, prefix t2)."""
 import base64
@@ -1281,26 +1280,26 @@ class DerivedRfc:
         if T == "dt" and f0 == "ci":
             tok = out.split(" ")
             if want is None and tok[0] != "E":
-                # accepted although outside the RFC 6991 pattern (dt-lexical) / with a day the month does not have
-                # (dt-day-overflow: normalised by timegm(), required by libyang's own unit tests)
+                # a day the month does not have, normalised by timegm() (dt-day-overflow: required by libyang's own unit
+                # tests); anything else outside the RFC 6991 pattern is refused since /repo commit 507eb73: unexpected
                 t = _txt(vals[0])
                 m = t and re.fullmatch(r"(\d{4})-(\d{2})-(\d{2})T\d{2}:\d{2}:\d{2}(\.\d+)?(Z|[+-]\d{2}:\d{2})", t)
                 if m and 1 <= int(m.group(2)) <= 12 and calendar.monthrange(int(m.group(1)) or 4, int(m.group(2)))[1] < int(m.group(3)) <= 31:
                     return "dt-day-overflow"
-                return "dt-lexical"
+                if m and re.fullmatch(r"-(2[4-9]|[3-9][0-9]):[0-5][0-9]", m.group(5)) and ref_derived("dt", (t[:-6] + "-23:00").encode()) not in (None, b"?"):
+                    return "dt-zone-hour"          # negative offset hour below -23 (only the upper bound is checked)
+                return None
             if len(tok) == 2 and tok[1] == "E" and unhex(tok[0]).startswith(b"10000-"):
                 return "dt-year-10000"
         if T == "dt" and f0 == "perm" and out.startswith("DIFF"):
             # same instant (zone and zero fractions aside) among the values: the sort callback says equal (dt-sort-eq);
-            # otherwise the int overflow of the time difference (dt-sort-overflow)
+            # otherwise unexpected (the int overflow of the time difference was fixed by /repo commit 33f29b0)
             def instant(v):
                 c = ref_derived("dt", v).decode()
                 m = re.fullmatch(r"(.*T\d{2}:\d{2}:\d{2})(\.\d+)?([+-]\d{2}:\d{2})", c)
                 return m.group(1), (m.group(2) or "").rstrip("0").rstrip(".")
             keys = [instant(v) for v in vals]
-            return "dt-sort-eq" if len(set(keys)) < len(keys) else "dt-sort-overflow"
-        if T == "idr" and f0 == "ci" and want is None and re.fullmatch(rb"(types2:)?i[ab]", vals[0]):
-            return "idref-any-base"
+            return "dt-sort-eq" if len(set(keys)) < len(keys) else None
         if T == "idr" and f0 == "ci" and want is None and vals[0].startswith(b":") and ref_derived(T, vals[0][1:]) is not None:
             return "idref-empty-prefix"
         return None
